@@ -758,14 +758,14 @@ def run_inc_cases(rep, cases, tag):
                         impl=[{**o, "code": (o["code"] or "")[:200]} for o in obs])
         elif len(oks) < 3:
             # by construction everything fits at all three bases (even addresses, base + size < 2^16, near branches)
-            rep.violate("include-rejected:" + "+".join(c["kinds"]), "a program with included files that fits at this link base was rejected "
+            rep.violate("include-rejected:" + "+".join(c["kinds"]), "a program made of several files (included or linked) that fits at this link base was rejected "
                         "(it assembles wherever its addresses fit, so that its images can be compared at all)", inp, impl=obs)
         elif code & 2:
             why = None
             for x in range(len(oks)):
                 for y in range(x + 1, len(oks)):
                     why = why or py_law(c["aw"], oks[x][0], oks[x][1], oks[y][0], oks[y][1])
-            rep.violate("law-include:" + "+".join(c["kinds"]), "two images of a program with included files break the relocation law (judged in Coq: "
+            rep.violate("law-include:" + "+".join(c["kinds"]), "two images of a program made of several files (included or linked) break the relocation law (judged in Coq: "
                         "Run.C09Run.law_all): " + str(why), inp, impl=obs, oracle="Run.C09Run.law_all")
 
 
